@@ -3,6 +3,7 @@ package openapi
 import (
 	"encoding/json"
 	"fmt"
+	"reflect"
 	"strconv"
 
 	"goa.design/goa/v3/codegen"
@@ -426,6 +427,76 @@ func ToStringMap(val any) any {
 	}
 }
 
+// ToJSONExample makes sure that the given example value can be encoded by
+// encoding/json. Maps whose key type is not supported by encoding/json
+// (boolean, float and untyped keys, e.g. the example computed for
+// MapOf(Boolean, String)) are replaced with maps indexed by the string
+// representation of the keys. Values that can be encoded are returned as is.
+func ToJSONExample(val any) any {
+	if val == nil || !hasNonJSONKey(reflect.ValueOf(val)) {
+		return val
+	}
+	return stringifyKeys(reflect.ValueOf(val))
+}
+
+// hasNonJSONKey returns true if v is or contains a map that encoding/json
+// cannot encode because of its key type.
+func hasNonJSONKey(v reflect.Value) bool {
+	switch v.Kind() {
+	case reflect.Interface, reflect.Ptr:
+		return !v.IsNil() && hasNonJSONKey(v.Elem())
+	case reflect.Map:
+		switch v.Type().Key().Kind() {
+		case reflect.Bool, reflect.Float32, reflect.Float64, reflect.Interface:
+			return true
+		}
+		for _, k := range v.MapKeys() {
+			if hasNonJSONKey(v.MapIndex(k)) {
+				return true
+			}
+		}
+	case reflect.Slice, reflect.Array:
+		if v.Type().Elem().Kind() == reflect.Uint8 {
+			return false
+		}
+		for i := 0; i < v.Len(); i++ {
+			if hasNonJSONKey(v.Index(i)) {
+				return true
+			}
+		}
+	}
+	return false
+}
+
+// stringifyKeys converts the maps in v to map[string]any and the slices to
+// []any recursively.
+func stringifyKeys(v reflect.Value) any {
+	switch v.Kind() {
+	case reflect.Interface, reflect.Ptr:
+		if v.IsNil() {
+			return nil
+		}
+		return stringifyKeys(v.Elem())
+	case reflect.Map:
+		m := make(map[string]any, v.Len())
+		for _, k := range v.MapKeys() {
+			m[fmt.Sprint(k.Interface())] = stringifyKeys(v.MapIndex(k))
+		}
+		return m
+	case reflect.Slice, reflect.Array:
+		if v.Type().Elem().Kind() == reflect.Uint8 {
+			return v.Interface()
+		}
+		s := make([]any, v.Len())
+		for i := range s {
+			s[i] = stringifyKeys(v.Index(i))
+		}
+		return s
+	default:
+		return v.Interface()
+	}
+}
+
 // MarshalJSON returns the JSON encoding of s.
 func (s *Schema) MarshalJSON() ([]byte, error) {
 	return MarshalJSON((*_Schema)(s), s.Extensions)
@@ -484,7 +555,7 @@ func buildAttributeSchema(api *expr.APIExpr, s *Schema, at *expr.AttributeExpr) 
 	}
 	s.DefaultValue = ToStringMap(at.DefaultValue)
 	s.Description = at.Description
-	s.Example = at.Example(api.ExampleGenerator)
+	s.Example = ToJSONExample(at.Example(api.ExampleGenerator))
 	s.Extensions = ExtensionsFromExpr(at.Meta)
 	initAttributeValidation(s, at)
 
